@@ -24,7 +24,7 @@ func checkC01(r *Run) {
 	runMatchD1(r, g, "direct", false, pick(r, 5*time.Minute, 40*time.Minute))
 	// hostname mode: overlapping host patterns above path patterns with parameters
 	gh := newMatchGen(rng, pick(r, 4, 8), pick(r, 12, 24), 3, 3, pick(r, 30, 60), true)
-	gh.Hosts = append(derivedHostsFirst(gh, pick(r, 8, 14)), "a.b", "a.ab", "a.b.ab")
+	gh.Hosts = withHostSpellings(append(derivedHostsFirst(gh, pick(r, 8, 14)), "a.b", "a.ab", "a.b.ab"), 2)
 	runMatchD1(r, gh, "direct", false, pick(r, 5*time.Minute, 40*time.Minute))
 	runMatchD2(r, false, false)
 	runLookupModel(r, true) // with the negative runs (one per rule of the walk) in the thorough tier
@@ -36,6 +36,7 @@ func checkC01(r *Run) {
 func checkC09(r *Run) {
 	rng := rand.New(rand.NewSource(r.Seed))
 	g := newMatchGen(rng, pick(r, 6, 10), pick(r, 12, 28), 3, 3, pick(r, 24, 50), true)
+	g.Hosts = withHostSpellings(g.Hosts, 2)
 	runMatchD1(r, g, "all", false, pick(r, 5*time.Minute, 40*time.Minute))
 	runMatchD2(r, false, true)
 	r.assumption("hostname comparison is exact and case-sensitive after removing one port and one trailing dot")
@@ -54,6 +55,7 @@ func checkC08(r *Run) {
 	runServeD1(r, newServeGen(r, rng), "C08", pick(r, 5*time.Minute, 40*time.Minute))
 	runServeD2(r, rng, "C08")
 	runServeDirtyStatic(r, rng)
+	runConnectTsr(r)
 	if !r.quick() { // the walk model is checked on every quick run of C01; here only in the thorough tier
 		runLookupModel(r, false)
 	}
